@@ -193,7 +193,19 @@ def run_property(pid, tier, seed):
                     canary_results.append({'unit': u.name, 'canary': label, 'status': 'caught-other',
                                            'by': (bad[0] if bad else 'undecided: ' + str(r2['error']))})
                     if not bad:
-                        engine_errors.append(f'canary `{label}` of {u.name} made the unit undecided instead of failing: {r2["error"]}')
+                        # a canary is written against the shape the function had when the contract was written.  If its replacement text uses a local
+                        # name the CURRENT function no longer has (the code was refactored), the canary does not apply: noted, not an engine error.
+                        import re as _re
+                        mname = _re.search(r'name `(\w+)`', str(r2['error']))
+                        try:
+                            cur_names = set(_re.findall(r'[A-Za-z_]\w*', u.load()[2]))
+                        except Exception:       # noqa: BLE001
+                            cur_names = None
+                        if mname and cur_names is not None and mname.group(1) not in cur_names:
+                            canary_results[-1]['status'] = 'not-applicable'
+                            canary_results[-1]['why'] = f'the canary text uses `{mname.group(1)}`, which the current function does not have'
+                        else:
+                            engine_errors.append(f'canary `{label}` of {u.name} made the unit undecided instead of failing: {r2["error"]}')
                 else:
                     canary_results.append({'unit': u.name, 'canary': label, 'status': 'MISSED'})
                     engine_errors.append(f'canary `{label}` of {u.name} still verifies: the contract is too weak or the engine unsound')
